@@ -170,10 +170,24 @@ pub fn read<const N: usize, Ns>(reader: impl Read) -> Result<Mappings<N, Ns>> {
 }
 
 pub(crate) fn unescape(s: String) -> String {
-	s.replace("\\n", "\n")
+	// `\\` is a backslash and `\n` a line break, any other backslash stands for itself
+	let mut out = String::with_capacity(s.len());
+	let mut chars = s.chars();
+	while let Some(c) = chars.next() {
+		if c == '\\' {
+			match chars.clone().next() {
+				Some('n') => { chars.next(); out.push('\n'); },
+				Some('\\') => { chars.next(); out.push('\\'); },
+				_ => out.push('\\'),
+			}
+		} else {
+			out.push(c);
+		}
+	}
+	out
 }
 pub(crate) fn escape(s: &str) -> String {
-	s.replace('\n', "\\n")
+	s.replace('\\', "\\\\").replace('\n', "\\n")
 }
 
 fn add_comment(javadoc: &mut Option<JavadocMapping>, line: TinyLine) -> Result<()> {
